@@ -55,6 +55,30 @@ def opET (args obs : List String) : Outcome :=
     | _, _, _, _ => { corr := .bad "bad-line" }
   | _, _ => { corr := .bad "bad-line" }
 
+/-- `ETC sec nsec zone => f=.. p=.. c=.. src=..`: an instant expressed in some zone, through the constructors -/
+def opETC (args obs : List String) : Outcome :=
+  match args with
+  | [s, n, z] =>
+    match s.toInt?, n.toNat? with
+    | some sec, some nsec =>
+      let t : Instant := { sec := sec, nsec := nsec, zone := 0 }
+      let want := toHex (encodeET t)
+      let all := " ".intercalate obs
+      if all == "nozone" then { corr := .ok, prop := .na, branch := "etc.nozone" } else
+      let get (k : String) : String := ((obs.find? (·.startsWith k)).map (fun x => (x.drop k.length).toString)).getD "?"
+      let bad := ["f=", "p=", "c="].filter fun k => get k != want
+      let names := bad.map fun k => if k == "f=" then "NewForwardMessage" else if k == "p=" then "NewPackedForwardMessage" else "NewCompressedPackedForwardMessage"
+      let fSrc := if get "src=" == "same" then [] else ["C07 a constructor changed the timestamps of the entry list it was given"]
+      let fInst := if bad.isEmpty then [] else
+        [s!"C19 the instant {sec}.{nsec} expressed in zone {z} is carried as another instant by {", ".intercalate names} (want {want}; {all})",
+         s!"C01 an entry handed to {", ".intercalate names} in zone {z} does not come back with the same instant",
+         s!"C02 {", ".intercalate names}: the EventTime of an entry is not the big-endian seconds and nanoseconds of its instant (zone {z})"]
+      { corr := if bad.isEmpty then .ok else .bad s!"model={want} go=[{all}]",
+        prop := if decide t.InDomain then (if (fInst ++ fSrc).isEmpty then .ok else .bad (" ; ".intercalate (fInst ++ fSrc))) else .na,
+        branch := s!"etc.{if z.toInt?.isSome then "fixed" else z}" }
+    | _, _ => { corr := .bad "bad-line" }
+  | _ => { corr := .bad "bad-line" }
+
 def opETD (args obs : List String) : Outcome :=
   match args with
   | [h] =>
@@ -83,6 +107,7 @@ def dispatch (op : String) (args obs : List String) : Outcome :=
   | "EQ" => opEQ args obs
   | "ET" => opET args obs
   | "ETD" => opETD args obs
+  | "ETC" => opETC args obs
   | "HRESET" | "PRIME" | "PK" | "CP" | "CB" | "PB" | "MP" | "UP" | "MM" | "GCH" =>
     match opHIST op args obs with
     | some d =>
@@ -171,6 +196,20 @@ def dispatch (op : String) (args obs : List String) : Outcome :=
     | none => { corr := .bad "bad-line" }
   | "CID" =>
     match opCID args obs with
+    | some d =>
+      { corr := match d.corr with | none => .ok | some w => .bad w,
+        prop := if d.fails.isEmpty then .ok else .bad (" ; ".intercalate d.fails),
+        branch := d.branch }
+    | none => { corr := .bad "bad-line" }
+  | "RAWE" =>
+    match opRAWE args obs with
+    | some d =>
+      { corr := match d.corr with | none => .ok | some w => .bad w,
+        prop := if d.fails.isEmpty then .ok else .bad (" ; ".intercalate d.fails),
+        branch := d.branch }
+    | none => { corr := .bad "bad-line" }
+  | "CHUNKC" =>
+    match opCHUNKC args obs with
     | some d =>
       { corr := match d.corr with | none => .ok | some w => .bad w,
         prop := if d.fails.isEmpty then .ok else .bad (" ; ".intercalate d.fails),
